@@ -418,6 +418,22 @@ def r6(ctx):
                     if binder is None:
                         continue          # not a block loop (e.g. the caller passes its own coordinates through)
                     bsrc = src(binder)
+                    if isinstance(binder, ast.Name):
+                        # the block list is a local: every definition of it has to be a block source
+                        dd = [a_.value for a_ in walk_no_nested(f) if isinstance(a_, ast.Assign) and len(a_.targets) == 1 and src(a_.targets[0]) == binder.id]
+                        spans = [d_ for d_ in dd if 'get_blocks' not in src(d_) and 'get_aligned_blocks' not in src(d_)]
+                        blocky = [d_ for d_ in dd if 'get_blocks' in src(d_) or 'get_aligned_blocks' in src(d_)]
+                        if dd and not blocky and not any(x in src(d_) for d_ in dd for x in ('reference_start', 'reference_end')):
+                            continue        # not a walk over the blocks of a read
+                        if dd and spans:
+                            n += 1
+                            span_like = any(x in src(spans[0]) for x in ('reference_start', 'reference_end', 'span'))
+                            ctx.emit('C16-R6', False, rel, c, f'{q}: the ranges queried come from `{binder.id} = {src(spans[0])[:70]}`' + (': the reference span of the read, which includes deleted / skipped '
+                                     'reference bases no aligned base covers - features lying inside a deletion are reported' if span_like else ': not the aligned blocks of the read'),
+                                     key=f'{q}:blocks-are-aligned-blocks', undecided=not span_like, what=f'{q}: annotation queries the reference span instead of the aligned blocks')
+                            continue
+                        if dd:
+                            bsrc = ' | '.join(sorted({src(d_) for d_ in dd}))
                     if 'get_blocks' in bsrc:
                         n += 1
                         lf = linform(endarg)
@@ -517,6 +533,13 @@ def r7(ctx):
                 why, und = f'fastIndex is computed as `{src(v)[:60]}` (not understood)', True
     ctx.emit('C16-R7', ok, FEATURES, st_[0] if st_ else srt, 'sort(): ' + why, key='fast-index-derivation', undecided=und and not ok,
              what='FeatureContainer.sort: the start index of the point lookup skips overlapping features')
+
+
+@rule('C16', 'C16-R8', 'a molecule is annotated by the positions its reads cover: get_aligned_blocks returns the maximal runs of matched reference positions of all reads '
+                       '(shared with C15-R6) - a feature under the tail of a long read is found although a shorter read is nested inside it')
+def r8(ctx):
+    from . import C15
+    C15.aligned_blocks_rule(ctx, 'C16-R8')
 
 
 META = {
